@@ -33,3 +33,19 @@ Example bal_example : bal_b 2 [EC 0 (WPar 0); EAns (AReady (ROk 7)); EDc 0; EC 1
 Proof. vm_compute. reflexivity. Qed.
 Example bal_counterexample : bal_b 2 [EC 0 (WPar 0); EAns (AReady (ROk 7)); EDc 0; EC 1 (WPar 0); EAns APend; EEndP; ED; EDc 1] = false.
 Proof. vm_compute. reflexivity. Qed.
+
+(* the exactly-once equation of the groups (C11_once) as a boolean function of the trace *)
+Fixpoint pairs_eqb (a b: list (nat * nat)) : bool :=
+  match a, b with
+  | [], [] => true
+  | (x1, y1) :: a', (x2, y2) :: b' => (x1 =? x2) && (y1 =? y2) && pairs_eqb a' b'
+  | _, _ => false
+  end.
+Lemma pairs_eqb_spec a b : pairs_eqb a b = true <-> a = b.
+Proof.
+  revert b. induction a as [|[x1 y1] a IH]; intros [|[x2 y2] b]; cbn; try (split; [discriminate|discriminate]); [split; auto|].
+  rewrite !andb_true_iff, !Nat.eqb_eq, IH. split; [intros [[-> ->] ->]; reflexivity|intros E; inversion E; auto].
+Qed.
+Definition once_b (t: list ev) : bool := pairs_eqb (map (keyof (inserted t)) (outs (polls_from 0 t))) (yields t).
+Theorem once_b_spec t : once_b t = true <-> map (keyof (inserted t)) (outs (polls_from 0 t)) = yields t.
+Proof. apply pairs_eqb_spec. Qed.
